@@ -260,7 +260,7 @@ def judge(pid, tier, seed, t0, builds, results, nd=()):
     known = load_known()
     violations = []
     known_lines = []
-    rdir = os.path.join(VERIF, 'replay', pid)
+    rdir = os.path.join(os.environ.get('VERIF_OUT', VERIF), 'replay', pid)
     if failures:
         os.makedirs(rdir, exist_ok=True)
     # group failures per function: report the most specific obligation first
@@ -329,8 +329,9 @@ def judge(pid, tier, seed, t0, builds, results, nd=()):
 
 
 def write_evidence(pid, tier, seed, t0, S, undecided=None):
-    os.makedirs(os.path.join(VERIF, 'evidence'), exist_ok=True)
-    path = os.path.join(VERIF, 'evidence', pid + '.json')
+    # VERIF_OUT: scratch output directory for runs against a modified copy (seed evaluation); default /verif
+    os.makedirs(os.path.join(os.environ.get('VERIF_OUT', VERIF), 'evidence'), exist_ok=True)
+    path = os.path.join(os.environ.get('VERIF_OUT', VERIF), 'evidence', pid + '.json')
     ev = dict(property_id=pid, tier=tier if tier in ('quick', 'thorough') else 'quick', seed=seed, level='proof',
               coverage={}, assumptions=[], wall_s=round(time.time() - t0, 2), violations=0)
     cov = ev['coverage']
